@@ -60,6 +60,8 @@ def exc_code(e):
         return Err(6, "NoNS")
     if t is dns.ttl.BadTTL:
         return Err(10, "BadTTL")
+    if t is dns.name.NeedAbsoluteNameOrOrigin:
+        return Err(8, "NeedAbsoluteNameOrOrigin")
     if t is ValueError:
         return Err(107, "ValueError:" + str(e)[:60])
     if t is AssertionError:
@@ -829,12 +831,13 @@ def cases(ctx):
 
     # --- print: model vs implementation text, every style combination incl. lossy ones
     for i in range(ctx.n(60, 800)):
-        origin, rel, nodes = gen_zone(rng, max_names=rng.choice([0, 2, 5]))
+        wireable = rng.random() < 0.35   # only types whose RFC 3597 form the model can print
+        origin, rel, nodes = gen_zone(rng, max_names=rng.choice([0, 2, 5]), simple=wireable)
         zo = zone_obs(origin, rel, nodes)
         if rng.random() < 0.1 and zo:
             zo[rng.randrange(len(zo))][1].clear()  # an empty node prints an empty line
         for _ in range(ctx.n(3, 4)):
-            st = gen_style(rng, origin, lossless=rng.random() < 0.75)
+            st = gen_style(rng, origin, lossless=rng.random() < 0.75, generic_ok=wireable)
             yield "print", [2, origin, int(rel), zo, style_obs(st)]
 
     # --- read: zone files in many spellings
